@@ -240,7 +240,7 @@ reg(PropertySpec(
 _EXTRA = {
     "C02": ["samplers.importance:ImportanceSampler.sample", "samples:Samples.__getitem__", "samples:Samples.compute_weights"],
     "C04": ["flows.jax.flows:FlowJax.sample_and_log_prob", "flows.torch.flows:ZukoFlow.sample_and_log_prob"],
-    "C05": ["samplers.mcmc:Emcee.sample", "samplers.mcmc:MiniPCN.sample"],
+    "C05": ["samplers.mcmc:Emcee.sample", "samplers.mcmc:MiniPCN.sample", "samplers.smc.base:SMCSampler.sample"],
     "C08": ["aspire:Aspire.sample_posterior"],
     "C10": ["samplers.mcmc:Emcee.sample", "samplers.mcmc:MiniPCN.sample", "samples:BaseSamples.from_dict", "utils:PoolHandler.__exit__"],
     "C11": ["samples:BaseSamples.from_samples"],
